@@ -42,6 +42,7 @@ pub fn check_tree(ctx: &Ctx, c: &Case, count: bool) -> Verdict {
     let mut paths: Vec<String> = vec!["/".into(), "/style.css".into(), "/script.js".into(), "/favicon.svg".into()];
     for f in &tree.files { paths.push(f.url.clone()); if let Some(s) = f.url.strip_suffix(".html") { if !s.ends_with('/') { paths.push(s.to_string()); } } }
     for d in &tree.dirs { if d.url != "/" && d.has_index { paths.push(d.url.clone()); paths.push(format!("{}/", d.url)); } }
+    paths.retain(|p| !p.contains('#') && !p.contains('?'));
     paths.sort(); paths.dedup();
     let fixed_variants: [(&str, &str); 6] = [
         // what a browser sends for fetch(url, {method: 'PUT'}) without custom headers, and for a GET with a custom header
